@@ -119,9 +119,9 @@ class CuckooSystem(System):
         # transitions per configuration; BFS stops BEFORE a level it cannot finish, so "all sequences <= d" holds
         heavy = prop in ("C05", "C06", "C19")
         if tier == "quick":
-            budget = (2500 if prop == "C05" else 4000) if heavy else (10000 if prop == "C14" else (20000 if prop == "C15" else 30000))
+            budget = (1500 if prop == "C05" else 2500) if heavy else (7000 if prop == "C14" else (14000 if prop == "C15" else 30000))
         else:
-            budget = 100000 if heavy else 600000
+            budget = 30000 if heavy else 150000
         for cls in classes:
             for cap in caps:
                 for bs in (1, 2):
@@ -159,7 +159,7 @@ class CuckooSystem(System):
                 cfgs.append(dict(cls=cls, capacity=cap, bucket=bs, swaps=2, auto=True, alt="fnv", nfp=5, corridor=True, depth=6,
                                  prefix=f"b{seed}k", budget=min(budget, 4000), cost=budget))
             # a count above 65535 (one key added 65537 times in one event), then reloads / removes
-            if cls == "counting":
+            if cls == "counting" and prop in ("C03", "C05", "C08", "C14"):
                 cfgs.append(dict(cls=cls, capacity=2, bucket=2, swaps=2, auto=True, alt="other", nfp=3, many=65537, depth=4,
                                  budget=min(budget, 3000), cost=budget))
             # 2-byte fingerprints whose zero bytes line up across neighbouring slots of one bucket
